@@ -275,6 +275,10 @@ def rule_guard(ck):
 
 
 def run(ck):
+    # "no thread's original instruction is skipped or executed twice": the rewind / step-off discipline (shared with C01)
+    from rules import C01
+    C01.rule_rewind(ck)
+    C01.rule_stepoff(ck)
     rule_status_consumed(ck)
     rule_no_phantom(ck)
     rule_group_stop_first(ck)
